@@ -162,8 +162,9 @@ def _ops(tier):
     add("sort(k,desc)", lambda m: m.sort("k", descending=True), seq(lambda u: sorted(u, key=lambda x: -K[x])), lambda u, s: len(u) >= 1)
     add("sort(k2)", lambda m: m.sort("k2"), lambda u: ("sorted-by", K2, tuple(u)), lambda u, s: len(u) >= 1)
     add("sort(k2,k)", lambda m: m.sort("k2", "k"), seq(lambda u: sorted(u, key=lambda x: (K2[x], K[x]))), lambda u, s: len(u) >= 1 and len(set(u)) == len(u))
-    add("head(2)", lambda m: m.head(2), seq(lambda u: u[:2]))
-    add("tail(2)", lambda m: m.tail(2), seq(lambda u: u[-2:]))
+    for n in (0, 1, 2, 9):  # none, one, some, more than there are
+        add(f"head({n})", lambda m, n=n: m.head(n), seq(lambda u, n=n: u[:n]))
+        add(f"tail({n})", lambda m, n=n: m.tail(n), seq(lambda u, n=n: u[len(u) - n:] if n < len(u) else u))
     for seed in (0, 1):
         add(f"sample(2,{seed})", lambda m, seed=seed: m.sample(2, seed=seed), lambda u: ("subset", 2, tuple(u)), lambda u, s: len(u) >= 2)
     add("copy", lambda m: m.copy(), seq(lambda u: u))
